@@ -25,7 +25,7 @@ ANCHORS = ["hashtable.py::HashTable.__init__", "hashtable.py::HashTable._build_r
 OPS = ["get1", "getv", "getmiss", "set1", "setv", "setvv", "fill", "contains", "hs_contains1", "hs_containsv", "zeros_like", "ones_like", "add", "eq", "items", "to_dict", "getwide", "getreuse", "deepcopy", "pickle"]
 FLOOR_TAGS = ["op:" + o for o in OPS] + ["init:scalar", "init:array", "mod:None", "mod:1", "mod:explicit", "keys:neg", "keys:big", "keys:dense", "keys:small",
                                          "kd:int8", "kd:uint64", "kd:list", "kd:int64", "state:scalar-at-first-write", "derived-table-used", "values:infinite"]
-FLOOR_MONITORS = ["c11:step", "c11:readback", "c11:keyset", "c11:must-refuse", "c11:caller-arrays"]
+FLOOR_MONITORS = ["c11:eq-other-keys", "c11:step", "c11:readback", "c11:keyset", "c11:must-refuse", "c11:caller-arrays"]
 FP_STRICT = True       # a floating-point event inside the library that the dense computation does not have is a violation (shard.FpMonitor)
 N_RANDOM = {"quick": 4000, "thorough": 100000}
 KD = ["int8", "int16", "int32", "int64", "uint8", "uint16", "uint32", "uint64", None]
@@ -216,7 +216,13 @@ def run(case):
                 bad = readback(new, step)
         elif name == "add":
             other_vals = op["vals"]
-            t2 = lib.HashTable(karr(keys, kd), np.array(other_vals, dtype=vdt), **kw)
+            if op.get("scalar_other") is not None:
+                # both operands may be in the hidden scalar state; the constant may be of another type than the left operand's values
+                other_vals = [op["scalar_other"]] * len(keys)
+                t2 = lib.HashTable(karr(keys, kd), op["scalar_other"], **kw)
+                tags.append("add:scalar-valued-operand")
+            else:
+                t2 = lib.HashTable(karr(keys, kd), np.array(other_vals, dtype=vdt), **kw)
             a = attempt(lambda: tb + t2)
             if not a.ok:
                 bad = "table + table2 raised %r" % a
@@ -233,11 +239,28 @@ def run(case):
             if op["differ"] is not None:
                 i_ = op["differ"] % len(keys)
                 vals2[i_] = vals2[i_] + 1 if np.isfinite(vals2[i_]) else 0
-            t2 = lib.HashTable(karr(keys, kd), np.array(vals2, dtype=vdt), **kw)
+            vdt_ = vdt if all(float(v_) == int(v_) for v_ in vals2 if np.isfinite(v_)) and all(np.isfinite(v_) for v_ in vals2) else np.dtype("float64")
+            t2 = lib.HashTable(karr(keys, kd), np.array(vals2, dtype=vdt_), **kw)
             a = attempt(lambda: bool(tb == t2))
             want = op["differ"] is None
             if not a.ok or a.value != want:
                 bad = "table == (table with %s) gives %s" % ("the same values" if want else "one value changed", repr(a) if not a.ok else a.value)
+            if not bad and mod is not None and kd != "uint64":
+                # a table over ANOTHER key set with the same bucket layout (one key moved by the modulus): never equal, whatever the values' state
+                k0 = keys[0]
+                moved = k0 + mod if (k0 + mod) not in md and (kd is None or k0 + mod <= np.iinfo(kd).max) else None
+                if moved is not None:
+                    okeys_ = [moved] + list(keys[1:])
+                    CTX.tick("c11:eq-other-keys")
+                    for form in ("array", "scalar"):
+                        if form == "array":
+                            l_, r_ = tb, lib.HashTable(karr(okeys_, kd), np.array([md[k] for k in keys], dtype=vdt_), **kw)
+                        else:
+                            l_, r_ = np.zeros_like(tb), np.zeros_like(lib.HashTable(karr(okeys_, kd), np.array([md[k] for k in keys], dtype=vdt_), **kw))
+                        a = attempt(lambda: bool(l_ == r_))
+                        if a.ok and a.value:
+                            bad = "a table over keys %s compares equal to a table over keys %s (%s-valued, same values)" % (short(keys, 80), short(okeys_, 80), form)
+                            break
         elif name in ("items", "to_dict"):
             a = attempt(lambda: {int(k): v for k, v in (tb.to_dict().items() if name == "to_dict" else tb.items())})
             if not a.ok or set(a.value) != set(md) or not all(eqval(a.value[k], md[k]) for k in md):
@@ -392,6 +415,8 @@ def gen_history(rng, tier, kd="pick", style=None, mod="pick", scalar_init=None, 
             ntables += 1
         elif name == "add":
             op["vals"] = [rng.randint(1, 50) for _ in keys]
+            if rng.random() < 0.35:
+                op["scalar_other"] = rng.choice([0.5, 0.25, 2, 1.5, 7])
             ntables += 1
         elif name == "eq":
             op["differ"] = None if rng.random() < 0.5 else rng.randrange(n)
@@ -402,6 +427,17 @@ def gen_history(rng, tier, kd="pick", style=None, mod="pick", scalar_init=None, 
 def directed():
     import random
     rng = random.Random(1111)
+    # key sets as large as the key dtype's range allows (default modulus 2n-1 at / beyond the dtype's capacity), and one short of that
+    for kd, nk in (("int8", 64), ("int8", 63), ("uint8", 128), ("uint8", 127), ("int8", 128), ("uint8", 256), ("int16", 16384), ("uint16", 32768), ("int16", 20000)):
+        ii = np.iinfo(kd)
+        pool = list(range(int(ii.min), int(ii.max) + 1))
+        keys = sorted(rng.sample(pool, nk))
+        rng.shuffle(keys)
+        nonkeys = [x for x in rng.sample(pool, min(len(pool), nk + 6)) if x not in set(keys)][:5]
+        for init in (3, [(i * 7) % 11 for i in range(nk)]):
+            yield {"keys": keys, "kdtype": kd, "mod": None, "init": init, "vdtype": "int64", "nonkeys": nonkeys, "style": "dense",
+                   "ops": [{"op": "getv", "table": "t", "keys": keys[:5]}, {"op": "set1", "table": "t", "keys": [keys[1]], "vals": [1000]}, {"op": "contains", "table": "t", "keys": keys[:3] + nonkeys[:2]},
+                           {"op": "hs_containsv", "table": "t", "keys": keys[-2:] + nonkeys[:1]}, {"op": "items", "table": "t"}]}
     for kd in KD:
         for style in ["small", "neg", "big", "dense"]:
             if style == "neg" and kd and kd.startswith("u"):
